@@ -1283,6 +1283,13 @@ class Printer:
         atoms = sorted(acc)
         if len(atoms) > self.MAX_ATOMS:
             return None
+        assume = getattr(self, "assume", None)
+        if assume is not None:
+            # printing under a path condition: combinations it excludes are don't-cares too (then projected away)
+            self._atoms(assume, acc)
+            atoms = sorted(acc)
+            if len(atoms) > self.MAX_ATOMS:
+                return None
         n = len(atoms)
         theory = _atom_theory(atoms)
         DC = None  # an impossible combination of atoms: don't care
@@ -1290,6 +1297,9 @@ class Printer:
         for i in range(1 << n):
             asg = {a: bool((i >> j) & 1) for j, a in enumerate(atoms)}
             if any(all(asg[a] == v for a, v in clash) for clash in theory):
+                rows.append(DC)
+                continue
+            if assume is not None and not self._evalb(assume, asg):
                 rows.append(DC)
                 continue
             rows.append(tuple(self._evalb(b, asg) for b in bs))
